@@ -51,10 +51,30 @@ def entry_body(ctx, prog, rule):
     return b
 
 
-def error_sites(body):
-    """Blocks that build NetflowPacket::Error."""
-    return [(b, i, s) for (b, i, s) in block_aggs(body)
-            if s["rv"]["adt"] == "NetflowPacket" and s["rv"]["variant"] == "Error"]
+def error_sites(body, an=None):
+    """Blocks that build NetflowPacket::Error — directly, or by calling a private constructor helper whose (inlined)
+    result is `NetflowPacket::Error(..)` (`Self::error_packet(e, bytes)`); the latter are returned as pseudo
+    statements carrying the payload expression."""
+    out = [(b, i, s) for (b, i, s) in block_aggs(body)
+           if s["rv"]["adt"] == "NetflowPacket" and s["rv"]["variant"] == "Error"]
+    if an is not None:
+        keep = getattr(an.interp, "keep", ())
+        for blk, t, c in body.calls():
+            if c is None or not c.local or c.kind != "Item" or c.path in keep or c.path not in an.prog.bodies:
+                continue
+            if not an.prog.bodies[c.path].local_ty(0).endswith("NetflowPacket"):
+                continue
+            e = peel(an.expand(an.slicer(body).call_expr(blk, t)))
+            if e[0] == "agg" and e[1] == "NetflowPacket" and e[2] == "Error" and e[3]:
+                out.append((blk, -1, {"rv": {"ops": []}, "span": body.blocks[blk]["tspan"], "payload": e[3][0], "via": c.path}))
+    return out
+
+
+def error_payload(an, body, s):
+    """The NetflowPacketError value an error site wraps (helpers inlined)."""
+    if "payload" in s:
+        return s["payload"]
+    return an.opx(body, s["rv"]["ops"][0])
 
 
 def parse_calls(body, ppaths):
@@ -104,7 +124,7 @@ def rule_unallowed_arm(ctx, prog, an, rule):
     if not sws:
         ctx.ob(rule, body.path, "error-kind-switch", False, "no switch on the NetflowParseError discriminant found in parse_bytes (unrecognised shape, fail closed)")
         return
-    errs = set(b for b, i, s in error_sites(body))
+    errs = set(b for b, i, s in error_sites(body, an))
     pcs = set(blk for blk, t, c in parse_calls(body, ppaths))
     pushes = set(blk for blk, t, c in body.calls() if c is not None and c.is_(*PUSHERS))
     # only the first (outermost) switch on the error's discriminant classifies the arms;
@@ -137,7 +157,7 @@ def run(ctx, env):
         return
     ppaths = parsing_paths(prog)
     ctx.count("parsing_functions", len(ppaths))
-    errs = error_sites(body)
+    errs = error_sites(body, an)
     pcs = parse_calls(body, ppaths)
     ctx.floor("R2.1", body.path, "Error construction sites", len(errs), 1)
     ctx.floor("R2.1", body.path, "parsing calls", len(pcs), 1)
@@ -150,7 +170,7 @@ def run(ctx, env):
                site=site(s["span"]))
     # R2.2
     for (b, i, s) in errs:
-        pe = an.opx(body, s["rv"]["ops"][0])
+        pe = error_payload(an, body, s)
         pe = peel(pe)
         ok = False
         why = "Error payload is not a NetflowPacketError aggregate: %s" % canon(pe)
@@ -229,7 +249,7 @@ def run(ctx, env):
 
 
 def error_kind(an, body, s):
-    pe = peel(an.opx(body, s["rv"]["ops"][0]))
+    pe = peel(error_payload(an, body, s))
     if pe[0] == "agg" and "error" in pe[4]:
         ee = peel(pe[3][pe[4].index("error")])
         if ee[0] == "agg":
@@ -333,7 +353,7 @@ def feed_back_rule(ctx, prog, an, body, pcs):
     # R2.2 support: the current-slice local is only assigned from those members (checked above) and
     # never between the dispatcher call and the error construction:
     sl = an.slicer(body)
-    errs = error_sites(body)
+    errs = error_sites(body, an)
     for blk, t, c in pcs:
         a = t["args"][-1]
         if a["k"] not in ("copy", "move"):
